@@ -14,11 +14,14 @@
 //! Being a STAM extension, this module is implemented as an extra feature and may be enabled/disabled
 //! at compile time.
 
-use crate::annotation::Annotation;
+use crate::annotation::{Annotation, AnnotationHandle};
+use crate::annotationdata::AnnotationDataHandle;
+use crate::annotationdataset::AnnotationDataSetHandle;
 use crate::annotationstore::AnnotationStore;
 use crate::api::*;
 use crate::error::StamError;
 use crate::store::*;
+use crate::types::Handle;
 use crate::AnnotationDataSet;
 
 use base16ct;
@@ -127,8 +130,7 @@ impl AnnotationStore {
                 let annotation: &mut Annotation = self.get_mut(handle)?;
                 annotation.add_data(set_handle, data_handle);
                 // we need to update the reverse index manually:
-                self.dataset_data_annotation_map
-                    .insert(set_handle, data_handle, handle);
+                self.index_validation_data(set_handle, data_handle, handle);
             }
             for (handle, text) in queue_texts {
                 let set: &mut AnnotationDataSet = self.get_mut(set_handle)?;
@@ -136,13 +138,36 @@ impl AnnotationStore {
                 let annotation: &mut Annotation = self.get_mut(handle)?;
                 annotation.add_data(set_handle, data_handle);
                 // we need to update the reverse index manually:
-                self.dataset_data_annotation_map
-                    .insert(set_handle, data_handle, handle);
+                self.index_validation_data(set_handle, data_handle, handle);
             }
         } else {
             panic!("Set must exist");
         }
         Ok(())
+    }
+
+    /// Adds an annotation to the reverse index of a data item. Data is deduplicated, so the item
+    /// may already be in use by annotations that come later: the index is kept in chronological order.
+    fn index_validation_data(
+        &mut self,
+        set_handle: AnnotationDataSetHandle,
+        data_handle: AnnotationDataHandle,
+        handle: AnnotationHandle,
+    ) {
+        if let Some(annotations) = self
+            .dataset_data_annotation_map
+            .data
+            .get_mut(set_handle.as_usize())
+            .and_then(|map| map.data.get_mut(data_handle.as_usize()))
+        {
+            let pos = annotations.partition_point(|x| *x < handle);
+            if annotations.get(pos) != Some(&handle) {
+                annotations.insert(pos, handle);
+            }
+        } else {
+            self.dataset_data_annotation_map
+                .insert(set_handle, data_handle, handle);
+        }
     }
 
     /// Tests if the store has validation info associated
